@@ -493,7 +493,12 @@ fn check_crate<T: Jetty<F = f64> + Copy>(tname: &str, ctx: &Ctx, shard: usize, n
             let sarr = Array2::from_shape_fn((n, n), |(i, j)| s.vals[i][j]);
             acc.observe(&format!("singular|{}|n{}|col{}", tname, n, col), true);
             match guarded(|| LU::new(sarr)) {
-                Ok(Err(_)) => {}
+                Ok(Err(e)) => {
+                    // "reported as singular": the error value says so
+                    if !e.to_string().to_lowercase().contains("singular") {
+                        acc.violate(format!("singular-message:{}", tname), format!("LU::new rejects the singular matrix with the message {:?}", e.to_string()), json!({"type": tname, "n": n}));
+                    }
+                }
                 Ok(Ok(lu2)) => {
                     let d = lu2.determinant();
                     acc.violate(format!("singular:{}", tname), format!("LU::new accepts a {}x{} matrix whose real part has an all-zero column {} (determinant parts {:?})", n, n, col, parts(&d, &shape)), json!({"type": tname, "n": n, "zero_column": col}));
